@@ -22,4 +22,4 @@ Extraction "model.ml"
   runner_trace_ok runner_times_ok runner_timed_ok rexec rinit
   c02_ok c03_ok c04_ok pexec pinit pterminal
   c09_ok stage_count_ok worker_actions
-  c05_ok lexec linit wedged.
+  c05_ok window_ok lexec linit wedged.
